@@ -7,7 +7,8 @@ package main
 var fixKeys = []string{"ks", "kl", "kh", "kz"}
 
 func fixtureOps(ttlMs string) []Op {
-	ops := []Op{c("SET", "ks", "10"), c("RPUSH", "kl", "e", "f2"), c("HSET", "kh", "f", "1", "g", "x"), c("SADD", "kz", "m", "n2")}
+	// ksrt holds key names: SORT ksrt BY * / GET * dereference the other fixture keys
+	ops := []Op{c("SET", "ks", "10"), c("RPUSH", "kl", "e", "f2"), c("HSET", "kh", "f", "1", "g", "x"), c("SADD", "kz", "m", "n2"), c("RPUSH", "ksrt", "ks", "kn", "kl")}
 	if ttlMs != "" {
 		for _, k := range fixKeys {
 			ops = append(ops, c("PEXPIRE", k, ttlMs))
@@ -50,6 +51,7 @@ func commandMatrix(K string, full bool) []Op {
 		{"EXPIRE", K, "100"}, {"EXPIRE", K, "-1"}, {"PEXPIRE", K, "100000"}, {"EXPIREAT", K, "1893457000"}, {"PEXPIREAT", K, "1893457000000"}, {"EXPIRE", K, "150", "NX"}, {"EXPIRE", K, "150", "XX"}, {"EXPIRE", K, "150", "GT"}, {"EXPIRE", K, "150", "LT"}, {"EXPIRE", K, "50", "GT"}, {"EXPIRE", K, "50", "LT"},
 		{"PERSIST", K}, {"TTL", K}, {"PTTL", K}, {"EXPIRETIME", K}, {"PEXPIRETIME", K},
 		{"SORT", K}, {"SORT", K, "ALPHA"}, {"SORT", K, "ALPHA", "DESC"}, {"SORT", K, "ALPHA", "STORE", d}, {"SORT", K, "LIMIT", "0", "1", "ALPHA"}, {"SORT", K, "BY", "nosort"}, {"SORT", "kl", "ALPHA", "STORE", K},
+		{"SORT", "ksrt", "BY", "*", "ALPHA"}, {"SORT", "ksrt", "GET", "*", "ALPHA"}, {"SORT", "ksrt", "BY", "*", "GET", "#", "GET", "*", "ALPHA"}, {"SORT", "ksrt", "GET", "*", "ALPHA", "STORE", "kd"}, {"SORT", "ksrt", "BY", "kh->*", "GET", "kh->f", "ALPHA"},
 		{"DUMP", K}, {"KEYS", "*"}, {"KEYS", "k?"}, {"DBSIZE"}, {"RANDOMKEY"}, {"SCAN", "0", "COUNT", "100"}, {"SCAN", "0", "COUNT", "100", "TYPE", "list"}, {"SCAN", "0", "COUNT", "100", "MATCH", "k[lh]"},
 		// failing forms: syntax, range, overflow
 		{"SET", K, "v", "EX", "0"}, {"SET", K, "v", "BOGUS"}, {"SETEX", K, "0", "v"}, {"INCRBY", K, "9223372036854775807"}, {"DECRBY", K, "-9223372036854775808"}, {"SETRANGE", K, "-1", "v"}, {"LSET", K, "7", "v"}, {"LINSERT", K, "MIDDLE", "e", "v"},
